@@ -365,7 +365,7 @@ impl Check for C12 {
     }
 
     fn run(&self, ctx: &mut Ctx) -> Result<(), MachineryError> {
-        let depth = std::env::var("C12_DEPTH").ok().and_then(|s| s.parse().ok()).unwrap_or(ctx.tier.pick(4usize, 6usize));
+        let depth = std::env::var("C12_DEPTH").ok().and_then(|s| s.parse().ok()).unwrap_or(ctx.tier.pick(5usize, 6usize));
         let alpha = Alpha { ops: ops() };
         let max_entries = ctx.tier.pick(3usize, 4usize);
         ctx.rule = format!(
